@@ -86,7 +86,9 @@ def _collapse_preconditions(
             ).format(func.__qualname__)
         )
 
-    return base_preconditions + preconditions
+    # The groups of the bases are copied: a precondition added to this function later on (by a decorator or with
+    # ``add_precondition_to_checker``) must not be added to the functions of the bases as well.
+    return [list(group) for group in base_preconditions] + preconditions
 
 
 def _collapse_snapshots(
